@@ -24,22 +24,57 @@ from ahbicht.validation.validation import (  # noqa: E402
 STATUS = {v.value: v for v in RequirementValidationValue}
 
 
+import attrs
+
+
+# user code may derive its own classes from the maus model classes: every second object is an instance of a subclass
+@attrs.define(auto_attribs=True, kw_only=True)
+class UserFreeText(DataElementFreeText):
+    pass
+
+
+@attrs.define(auto_attribs=True, kw_only=True)
+class UserValuePool(DataElementValuePool):
+    pass
+
+
+@attrs.define(auto_attribs=True, kw_only=True)
+class UserSegment(Segment):
+    pass
+
+
+@attrs.define(auto_attribs=True, kw_only=True)
+class UserSegmentGroup(SegmentGroup):
+    pass
+
+
+def _alt(ident):
+    """deterministic per-node toggle (sum of the code points of the discriminator)"""
+    return sum(map(ord, ident or "")) % 2 == 1
+
+
 def build_element(el):
+    sub = _alt(el["id"])
     if el["kind"] == "free":
-        return DataElementFreeText(discriminator=el["id"], ahb_expression=el["expr"], entered_input=el["input"], data_element_id="1234")
-    return DataElementValuePool(
+        return (UserFreeText if sub else DataElementFreeText)(discriminator=el["id"], ahb_expression=el["expr"], entered_input=el["input"],
+                                                              data_element_id="1234")
+    return (UserValuePool if sub else DataElementValuePool)(
         discriminator=el["id"], data_element_id="0333", entered_input=el["input"],
         value_pool=[ValuePoolEntry(qualifier=e["q"], meaning="Bedeutung " + e["q"], ahb_expression=e["expr"]) for e in el["entries"]],
     )
 
 
 def build_segment(s):
-    return Segment(discriminator=s["id"], ahb_expression=s["expr"], data_elements=[build_element(e) for e in s["elements"]])
+    return (UserSegment if _alt(s["id"]) else Segment)(discriminator=s["id"], ahb_expression=s["expr"],
+                                                       data_elements=[build_element(e) for e in s["elements"]])
 
 
 def build_group(g):
-    return SegmentGroup(discriminator=g["id"], ahb_expression=g["expr"], segment_groups=[build_group(x) for x in g["groups"]] or None,
-                        segments=[build_segment(x) for x in g["segments"]] or None)
+    # "no children" is written as None or as an empty list (both are legal for the Optional[List] fields)
+    empty = [] if _alt(g["id"] + "x") else None
+    return (UserSegmentGroup if _alt(g["id"]) else SegmentGroup)(
+        discriminator=g["id"], ahb_expression=g["expr"], segment_groups=[build_group(x) for x in g["groups"]] or empty,
+        segments=[build_segment(x) for x in g["segments"]] or empty)
 
 
 def build_ahb(groups):
